@@ -92,7 +92,7 @@ def remove_rules(rep, prog):
         rep.unk("BIN.remove", fwhere(f), "the existing edges are not obtained from directed_edges(.) nor from np.where(only_directed(.)): not read")
         return
     if len(calls) != 1 or calls[0].args[0] not in BINS:
-        rep.bad("BIN.remove", fwhere(f), "the existing edges are not taken from the 0/1 pattern of A (directed_edges(%s))" % (fmt(calls[0].args[0])[:60] if calls else "-"))
+        rep.bad_form("BIN.remove", fwhere(f), "the existing edges are not taken from the 0/1 pattern of A (directed_edges(%s))" % (fmt(calls[0].args[0])[:60] if calls else "-"))
         return
     B = calls[0].args[0]
     edges = calls[0].result
@@ -158,7 +158,7 @@ def add_rules(rep, prog):
         rep.unk("CAND.store", fwhere(f), "a round stores %d times into the working graph (set and undo?): this way of trying a candidate is not read" % len(stores))
         return
     if len(stores) != 1:
-        rep.bad("CAND.store", fwhere(f), "each round must set exactly one entry of the candidate graph (found %d stores)" % len(stores))
+        rep.bad_form("CAND.store", fwhere(f), "each round must set exactly one entry of the candidate graph (found %d stores)" % len(stores))
         return
     st = stores[0]
     edges = None
